@@ -9,8 +9,10 @@ def load_claimed():
     here = os.path.dirname(os.path.abspath(__file__))
     sys.path.insert(0, here)
     out = {}
+    # only properties listed in claimed.txt are registered (work in progress stays out)
+    allowed = set(l.strip() for l in open(os.path.join(here, "claimed.txt")) if l.strip() and not l.startswith("#"))
     for f in sorted(os.listdir(os.path.join(here, "vplib", "props"))):
-        if f.startswith("c") and f.endswith(".py"):
+        if f.startswith("c") and f.endswith(".py") and f[:-3].upper() in allowed:
             mod = importlib.import_module("vplib.props." + f[:-3])
             if getattr(mod, "MANIFEST", None):
                 out[f[:-3].upper()] = mod.MANIFEST
